@@ -15,8 +15,8 @@ SPEC = os.path.join(os.path.dirname(os.path.dirname(os.path.abspath(__file__))),
 FUNS = ['su', 'sud', 'sum', 'sulk']
 
 
-def _block(text):
-    i = text.index('(define-funs-rec (\n  (su ')
+def _block(text, marker):
+    i = text.index(marker)
     depth = 0
     for j in range(i, len(text)):
         if text[j] == '(':
@@ -47,56 +47,73 @@ def _sig(sig):
     sig = sig.strip()
     name = sig[1:].split()[0]
     params = _sexps(sig[1:-1])[0]
-    return name, params[1:-1]
+    ret = sig[sig.index(params) + len(params):-1].strip()
+    return name, params[1:-1], ret
 
 
-def frame_obligations():
-    text = open(SPEC).read()
-    i, j = _block(text)
+def induction_obligations(lemma, spec_files, marker, prop, extra_vars=()):
+    """Induction over the recursion of one define-funs-rec block.  `prop(name, call, params)` builds the
+    property of one function for a call expression (or None if the lemma says nothing about it)."""
+    texts = [open(os.path.join(os.path.dirname(SPEC), f)).read() for f in spec_files]
+    text = texts[-1]
+    i, j = _block(text, marker)
     block = text[i:j]
     inner = block[len('(define-funs-rec'):-1].strip()
     sigs_s, bodies_s = _sexps(inner)
-    sigs = _sexps(sigs_s[1:-1])
+    sigs = [_sig(x) for x in _sexps(sigs_s[1:-1])]
     bodies = _sexps(bodies_s[1:-1])
-    assert len(sigs) == len(bodies) == 4, (len(sigs), len(bodies))
-    head = text[:i]
-    # keep only the datatype/resolve part of the prelude (everything before the su block)
-    pre = '(set-logic ALL)\n' + head
+    assert len(sigs) == len(bodies)
+    funs = [n for n, _, _ in sigs]
+    pre = '(set-logic ALL)\n' + '\n'.join(texts[:-1]) + '\n' + text[:i]
     decl = []
-    for sig in sigs:
-        name, params = _sig(sig)
-        sorts = [p.split()[-1].rstrip(')') for p in _sexps(params)]
-        decl.append('(declare-fun %s_ (%s) SRes)' % (name, ' '.join(sorts)))
-        args = ' '.join('(%s %s)' % (chr(97 + k) + 'q', srt) for k, srt in enumerate(sorts))
-        call = '(%s_ %s)' % (name, ' '.join(chr(97 + k) + 'q' for k in range(len(sorts))))
-        sarg = chr(97 + len(sorts) - 1) + 'q'
-        decl.append('(assert (forall (%s (v Int)) (! (=> (and ((_ is SOk) %s) ((_ is Bound) (select %s v))) '
-                    '(= (select (st %s) v) (select %s v))) :pattern ((select (st %s) v)))))'
-                    % (args, call, sarg, call, sarg, call))
+    evars = ' '.join('(%s %s)' % v for v in extra_vars)
+    for name, params, ret in sigs:
+        ps = [p[1:-1].split(None, 1) for p in _sexps(params)]
+        decl.append('(declare-fun %s_ (%s) %s)' % (name, ' '.join(srt for _, srt in ps), ret))
+        qv = ' '.join('(%sq %s)' % (pn, srt) for pn, srt in ps)
+        call = '(%s_ %s)' % (name, ' '.join(pn + 'q' for pn, _ in ps))
+        p = prop(name, call, {pn: pn + 'q' for pn, _ in ps})
+        if p:
+            decl.append('(assert (forall (%s %s) (! %s :pattern (%s))))' % (qv, evars, p, call))
     obls = []
-    for sig, body in zip(sigs, bodies):
-        name, params = _sig(sig)
+    for (name, params, ret), body in zip(sigs, bodies):
         b = body
-        for f in FUNS:
+        for f in funs:
             b = re.sub(r'\(%s ' % f, '(%s_ ' % f, b)
-        consts = []
-        for p in _sexps(params):
-            pn, ps = p[1:-1].split(None, 1)
-            consts.append('(declare-const %s %s)' % (pn, ps))
-        sname = _sexps(params)[-1][1:-1].split()[0]
-        goal = ('(assert (not (=> (and ((_ is SOk) %s) ((_ is Bound) (select %s vv))) (= (select (st %s) vv) (select %s vv)))))'
-                % (b, sname, b, sname))
-        obls.append(('spec.L-SU-FRAME.%s' % name,
-                     '\n'.join([pre] + decl + consts + ['(declare-const vv Int)', goal, '(check-sat)'])))
+        ps = [p[1:-1].split(None, 1) for p in _sexps(params)]
+        consts = ['(declare-const %s %s)' % (pn, srt) for pn, srt in ps] + ['(declare-const %s %s)' % v for v in extra_vars]
+        p = prop(name, b, {pn: pn for pn, _ in ps})
+        if not p:
+            continue
+        obls.append(('spec.%s.%s' % (lemma, name), '\n'.join([pre] + decl + consts + ['(assert (not %s))' % p, '(check-sat)'])))
     return obls
+
+
+def frame_obligations():
+    def prop(name, call, P):
+        s = P['s']
+        return ('(=> (and ((_ is SOk) %s) ((_ is Bound) (select %s vv))) (= (select (st %s) vv) (select %s vv)))'
+                % (call, s, call, s))
+    return induction_obligations('L-SU-FRAME', ['terms.smt2'], '(define-funs-rec (\n  (su ', prop, extra_vars=[('vv', 'Int')])
+
+
+def rn_mono_obligations():
+    """L-RN-MONO: fresh copies allocate variable ids upwards"""
+    def prop(name, call, P):
+        return '(>= (%s %s) %s)' % ('rtn' if name == 'rnt' else 'rln', call, P['n'])
+    return induction_obligations('L-RN-MONO', ['terms.smt2', 'heap.smt2'], '(define-funs-rec (\n  (rnt ', prop)
 
 
 def prove_frame(timeout=20):
     return smt.run_many(frame_obligations(), timeout=timeout)
 
 
+def prove_heap_lemmas(timeout=20):
+    return smt.run_many(rn_mono_obligations(), timeout=timeout)
+
+
 if __name__ == '__main__':
-    for r in prove_frame():
+    for r in prove_frame() + prove_heap_lemmas():
         print(r['name'], r['verdict'], r['solver'], r['seconds'])
 
 
